@@ -567,4 +567,31 @@ example : BestInv pImp (bootVol pImp) ∧ (bootVol pImp).keys = pImp.ks ∧ s0.e
     tipOnB s0.env pImp = true ∧ (("W9", ⟨some 0, false⟩) : Wid × WStatus) ∈ pImp.led.status :=
   ⟨(⟨rfl, rfl⟩ : BestInv pImp (bootVol pImp)), rfl, rfl, rfl, by decide⟩
 
+
+/-- the hypotheses of `crash_start_reaches` / `crash_during_start` are satisfiable: wallet w1 at genesis (books of
+    `[G]`, resp. the Start state `SInv … 0`), node at G–b1–d2: boot + Start catch up two blocks -/
+example : (crash (Lemmas.Deepen3.envAt Lemmas.Deepen3.exSt [Lemmas.Ledger.hxG, Lemmas.Ledger.hxB1, Lemmas.Ledger.ixD2]) 1
+    Lemmas.Deepen3.exX0.P).ok = true :=
+  (crash_start_reaches Lemmas.Deepen3.exStaticOK
+    (Lemmas.Deepen3.exOK Lemmas.Deepen3.exKs0 Lemmas.Ledger.ixD2 (Or.inl rfl) Lemmas.Deepen3.exValid0) 1 rfl
+    ((Lemmas.Ledger.inv_env_chain (Lemmas.Deepen3.lenv Lemmas.Deepen3.exSt Lemmas.Deepen3.exKs0) _ _).1 Lemmas.Deepen3.exInv0)
+    ((Lemmas.Deepen3.exOK Lemmas.Deepen3.exKs0 Lemmas.Ledger.ixD2 (Or.inl rfl) Lemmas.Deepen3.exValid0).take 0)
+    Lemmas.Deepen3.exAllReady0 (by decide)).1
+example : Lemmas.Deepen3.SInv Lemmas.Deepen3.exSt Lemmas.Deepen3.exKs0
+    [Lemmas.Ledger.hxG, Lemmas.Ledger.hxB1, Lemmas.Ledger.ixD2] Lemmas.Ledger.obS0 0 Lemmas.Deepen3.exX0.P
+    Lemmas.Deepen3.exX0.V :=
+  ⟨rfl, rfl, (Lemmas.Ledger.inv_env_chain (Lemmas.Deepen3.lenv Lemmas.Deepen3.exSt Lemmas.Deepen3.exKs0) _ _).1
+    Lemmas.Deepen3.exInv0, rfl, by decide, fun _ => rfl⟩
+/-- … of `crash_equiv_pending`: creation, quiet crash, an unconfirmed transaction new to both seen-sets, another
+    quiet crash -/
+example : Lemmas.Deepen3.okP 2 s0 s0 [.ev (.create "W1"), .ev .crash, .recvTx ⟨"u9", false, [⟨"zz", 0, 0⟩], [⟨"W1/0", 5, .std⟩]⟩,
+    .ev (.newAddr "W1" false), .ev .crash] = true := by decide
+/-- … of `removal_resumes_anywhere` / `import_resumes_anywhere` (k = 0 is the quiet starting point itself; k ≥ 1
+    needs a wallet with more credits than the step size) -/
+example : Lemmas.Deepen3.removePrefix 10 2 sRem.env "W1" (Lemmas.Deepen3.addrsOf sRem.V.keys "W1") 0 sRem.P sRem.V =
+    some (sRem.P, sRem.V) ∧ AMap.get sRem.P.ks "W1" = some {} := ⟨rfl, by decide⟩
+example : Lemmas.Deepen3.importPrefix 1000 2 s0.env "W9" 0 pImp (bootVol pImp) = some (pImp, bootVol pImp) ∧
+    Lemmas.Deepen3.importDone pImp "W9" = false ∧ AMap.get pImp.led.status "W9" = some ⟨some 0, false⟩ :=
+  ⟨rfl, by decide, by decide⟩
+
 end MW.Props.C06
